@@ -14,8 +14,9 @@ command's control point if that command was a curve of the same family, else the
 * `dropped`  — a curve command directly after a segment that is removed from the output
                (zero-length lineto or zero-length degenerate curve): the output's previous command changes;
 * `degenerate` — an S/C (T/Q) directly after an exactly degenerate cubic (quadratic) that is replaced by a line;
-* `dotexp`   — a number with a trailing dot followed by an exponent (`1.e5`, valid in SVG 1.1):
-               the dependency `parse.Number` reads `1`, skips `.e`, reads `5`.
+* `traildot` — a number with a trailing dot (`1.`, valid in SVG 1.1): the dependency `parse.Number`
+               reads `1` and leaves the dot; `1.e5` is then read as `1`, `5`, and a dot in front of an
+               arc flag is taken for a bad flag.
 -/
 namespace Verif.Spec.SvgHazard
 open Verif.Spec.SvgPath
@@ -83,16 +84,14 @@ def hazards (cs : List Cmd) : List String := hazardsFrom {} .normal cs
 
 def noHazard (cs : List Cmd) : Bool := (hazards cs).isEmpty
 
-/-- lexical trigger: digit `.` (`e`|`E`) [sign] digit -/
-def dotExp : List Char → Bool
-  | d :: '.' :: e :: r =>
-    (isDigit d && isExpChar e &&
-      (match r with
-       | '+' :: x :: _ => isDigit x
-       | '-' :: x :: _ => isDigit x
-       | x :: _ => isDigit x
-       | [] => false)) || dotExp ('.' :: e :: r)
-  | _ :: r => dotExp r
+/-- lexical trigger `traildot`: a number with a trailing dot (`1.`, valid in SVG 1.1), i.e. digit `.`
+    not followed by a digit.  The dependency `parse.Number` reads `1` and leaves the dot: harmless when
+    a separator follows (`M1. 2.`), but `1.e5` is read as `1`, `5` and a dot in front of an arc flag
+    (`A1 1 50. 1 1 2 2`) is taken for a bad flag. -/
+def trailDot : List Char → Bool
+  | d :: '.' :: r =>
+    (isDigit d && (match r with | x :: _ => !isDigit x | [] => true)) || trailDot ('.' :: r)
+  | _ :: r => trailDot r
   | [] => false
 
 end Verif.Spec.SvgHazard
